@@ -963,6 +963,9 @@ func (in *inliner) pureTempsIn(fd *ast.FuncDecl) int {
 							return true
 						}
 					}
+					if sig.Recv() == nil && fn.Pkg() != nil && (fn.Pkg().Path() == "cmp" || fn.Pkg().Path() == "strings") && fn.Name() == "Compare" {
+						return true
+					}
 				}
 				ok = false
 			case *ast.FuncLit, *ast.CompositeLit, *ast.TypeAssertExpr, *ast.SliceExpr:
